@@ -602,14 +602,14 @@ def judge_errmsg(text: str, tr: Tree, got: str) -> List[Tuple[str, str]]:
             return [("C04:error_message:" + got, f"error_message raised {got} although every offset lies inside the text")]
         return []
     msg = dec_text(got[3:])
-    if start is not None:
+    if start is not None and start < len(text):
         exp = spec_pos(text, start)
         want = f"At line {exp[0]} and column {exp[1]}: "
         if not msg.startswith(want):
             loc = parse_loc(msg)
             if loc and exp[0] > 1 and loc == (exp[0], exp[1] + 1) and text[start] != "\n":
                 return [("C04:column-shift-after-first-line", f"offset {start} is reported as {msg[:40]!r}, expected {want!r}")]
-            if loc and text[start] == "\n":
+            if loc and text[start] == "\n" and loc in ((exp[0] + 1, 0), (exp[0] + 1, 1)):
                 return [("C04:position-of-newline-character", f"offset {start} (a newline) is reported as {msg[:40]!r}, expected {want!r}")]
             return [("C04:prefix", f"offset {start} is reported as {msg[:40]!r}, expected {want!r}")]
     return []
